@@ -430,7 +430,8 @@ func (x *l2Exec) intercept(h *simreg.Host, mode string) func(rq *simreg.Request)
 				}
 			}
 		}
-		if kind == "" && mode == "fails" {
+		if mode == "fails" {
+			// a mirror that fails to serve fails whatever the fault plan says
 			kind = "500"
 			x.natural[rq.Seq] = true
 		}
